@@ -339,6 +339,74 @@ func runC08(c *h.Ctx) {
 			checkC08(c, ec)
 		}
 	}
+	// directed: a conversion that fails inside a predicate (quietly) and again
+	// after it (where it is reported); a number no type can hold after numbers
+	// that convert, under a unary operator (UseNumber documents only)
+	dirDoc2 := `{"ds":["bogus","2024-06-14"],"one":["bogus"],"ns":["1","x"],"nums":[1,2.5,1e400,4],"lead":[1e400,1],"o":{"a":[3,-1e999]}}`
+	for _, pt := range []string{`strict $.one[*] ? ((@.date() == @.date()) is unknown).date()`, `$.ds[*] ? ((@.date() == @.date()) is unknown || @.date() == @.date()).date()`, `$.ds[*] ? ((@.datetime() < @.datetime()) is unknown).datetime()`,
+		`$.one[*] ? ((@.time() == @.time()) is unknown).time()`, `$.ds[*] ? ((@.timestamp() == @.timestamp()) is unknown || true == true).timestamp()`, `$.ns[*] ? ((@.double() > 0) is unknown || @.double() > 0).double()`,
+		`$.ns[*] ? (exists(@.integer()) || !exists(@.integer())).integer()`, `$.ds[*] ? (!(@.date() == @.date()) || @.date() == @.date() || (@.date() == @.date()) is unknown).date().string()`,
+		`-$.nums[*]`, `+$.nums[*]`, `(-$.nums[*]).abs()`, `-$.nums[*] ? (@ < 0)`, `-$.lead[*]`, `(+$.o.a[*]).floor()`, `-$.o.a`, `-$.nums[0 to 2]`, `strict -$.nums[*]`, `$.nums[*] ? (-@ < 0)`, `-(-$.nums[*])`} {
+		for v := 0; v < 2; v++ {
+			k++
+			if !c.Mine(k) {
+				continue
+			}
+			ec, err := CaseFrom(h.Case{Path: pt, Doc: dirDoc2, UseNum: true, TZ: v&1 != 0, Vars: stdVars1})
+			if err != nil {
+				c.Count("gen.unparsable", 1)
+				continue
+			}
+			checkC08(c, ec)
+			// what the run without WithSilent reports is what the rules say it
+			// reports (the two runs agreeing with each other is not enough when
+			// both have lost the error)
+			vq := h.Call("query", ec.P, ec.DocValue(), ec.Opts())
+			c.Eval(1)
+			switch verdict, feat, detail := modelVerdict(ec, vq); {
+			case verdict == "held":
+				c.Held("soft.raised")
+			case strings.HasPrefix(verdict, "skip:"):
+				c.Skip("soft.raised", strings.TrimPrefix(verdict, "skip:"))
+			case feat["cause"] != "" && feat["cause"] != "unexplained":
+				c.Skip("soft.raised", "recorded-finding:"+feat["cause"])
+			default:
+				c.Violate("soft.raised", feat, detail, ec.Case())
+			}
+			// a unary operator over several items, silently: the results for the
+			// items before the first one it fails on
+			if u := pt[0]; (u == '-' || u == '+') && !strings.ContainsAny(pt[1:], "()?") {
+				pp, pu := cachedPath(pt[1:]), cachedPath(string(u)+"$")
+				if pp == nil || pu == nil {
+					continue
+				}
+				so := ec.Opts()
+				so.Silent = true
+				opnd := h.Call("query", pp, ec.DocValue(), so)
+				sq := h.Call("query", ec.P, ec.DocValue(), so)
+				c.Eval(2)
+				if opnd.Class != h.OK || sq.Class == h.Panic || !flat(opnd.Items) {
+					continue // (an item that is an array is unwrapped by the operator, not by Query)
+				}
+				var want []any
+				for _, x := range opnd.Items {
+					ox := h.Call("query", pu, x, h.Opts{})
+					c.Eval(1)
+					if ox.Class != h.OK {
+						break
+					}
+					want = append(want, ox.Items...)
+				}
+				scs := ec.Case()
+				scs.Silent = true
+				if sq.Class != h.OK || h.CanonListTyped(sq.Items) != h.CanonListTyped(want) {
+					c.Violate("soft.items-before-failure", h.F("form", "unary-over-items"), fmt.Sprintf("silent Query(%s) = %s; applying the operator to the operand's items %s one by one up to the first failure gives %s", pt, sq.Summary(), h.CanonList(opnd.Items), h.CanonListTyped(want)), scs)
+				} else {
+					c.Held("soft.items-before-failure")
+				}
+			}
+		}
+	}
 	c.Count("harvested.paths", int64(len(harvestedPaths())))
 	c.Count("gen.rejected-by-parser", int64(eg.Bad))
 }
